@@ -1,12 +1,20 @@
 (* C07 — property theorems only.  Each is closed by [exact] of a lemma proved in
    C07/Proofs*.v and followed by Print Assumptions.  The model is that of
-   bytes_buffer.c with fixes/C07-*.patch applied. *)
-From MV Require Import C07.Model C07.ProofsList C07.Proofs C07.ProofsOps gen.Params_C07 C07.ProofsGen.
+   bytes_buffer.c with fixes/C07-*.patch applied.
+
+   Operation language (Model.v [op]): the thirteen public functions with ANY int
+   size - sizes beyond the capacity up to INT_MAX included; negative counts for
+   writer_fc / reader_fc - and with the zero-copy pairs NOT adjacent: the region
+   handed out by writer_fc stays outstanding while the reader side works (until
+   the buffer is empty and beyond), the region exposed by reader_fc while the
+   writer side works.  Hypothesis [wf_op]: the count given to read / fetch /
+   reader_move is not negative (documented usage; see ProofsOps.v). *)
+From MV Require Import C07.Model C07.ProofsList C07.Proofs C07.ProofsRegion C07.ProofsOps gen.Params_C07 C07.ProofsGen.
 Local Open Scope Z_scope.
 
-(* Every state reachable from init by any history of the nine script operations
-   (all thirteen public functions) with non-negative sizes satisfies invariant
-   A.4, keeps its capacity, and reports readable() = number of unread bytes. *)
+(* Every state reachable from init by any history of the twelve script operations
+   (all thirteen public functions) satisfies invariant A.4, keeps its capacity,
+   and reports readable() = number of unread bytes. *)
 Theorem bb_inv_reachable : forall c fill ops, 1 <= c -> Forall wf_op ops ->
   let s := st (fst (run (start c fill) ops)) in
   inv s /\ cap s = c /\ readable s = len (abs s).
@@ -18,8 +26,10 @@ Print Assumptions bb_inv_reachable.
    read / fetch / reader_fc deliver the front bytes, read / reader_move remove
    exactly what they delivered (partial advances included), nothing else changes
    the contents — and readable() printed after each operation equals accepted
-   minus consumed. *)
-Theorem bb_refines_fifo : forall c fill ops, 1 <= c -> Forall wf_op ops ->
+   minus consumed.  Capacity 0 (a successful malloc(0)) included; the commit of a
+   writer region after the reader emptied the buffer included (the history the
+   unrepaired writer_move_n got wrong, see bb_orig_commit_wrong_only_after_drain). *)
+Theorem bb_refines_fifo : forall c fill ops, 0 <= c -> Forall wf_op ops ->
   fifo_trace [] (combine ops (snd (run (start c fill) ops))).
 Proof. exact refines_fifo. Qed.
 Print Assumptions bb_refines_fifo.
@@ -50,12 +60,12 @@ Theorem bb_fail_iff_lack : forall s, inv s ->
   (forall n, 0 <= n -> (snd (fst (read s n)) = None <-> readable s < n)) /\
   (forall n, 0 <= n -> snd (fst (read s n)) = None -> fst (fst (read s n)) = s) /\
   (forall n, 0 <= n -> (fst (fetch s n) = None <-> readable s < n)) /\
-  (forall n, 0 <= n -> (writer_fc s n = None <-> contiguous_writable s < n /\ jump_writable s < n)) /\
-  (forall n off data, writer_fc s n = Some off -> len data <= n ->
+  (forall n, writer_fc s n = None <-> contiguous_writable s < n /\ jump_writable s < n) /\
+  (forall n off data, region_ok s off n -> len data <= n ->
                       snd (writer_move_n (poke s off data) off (len data)) = true) /\
   (forall n, 0 <= n -> (snd (writer_move s n) = false <-> contiguous_writable s < n /\ jump_writable s < n)) /\
   (forall n, 0 <= n -> snd (writer_move s n) = false -> fst (writer_move s n) = s) /\
-  (forall n, 0 <= n -> (reader_fc s n = None <-> contiguous_readable s < n)) /\
+  (forall n, reader_fc s n = None <-> contiguous_readable s < n) /\
   (forall k, 0 <= k -> (snd (reader_move s k) = false <-> contiguous_readable s < k)) /\
   (forall k, 0 <= k -> snd (reader_move s k) = false -> fst (reader_move s k) = s).
 Proof. exact fail_iff_lack. Qed.
@@ -63,7 +73,7 @@ Print Assumptions bb_fail_iff_lack.
 
 (* At every point of every history, an operation that is refused (false / NULL /
    not performed) leaves all four cursors and the array as they were. *)
-Theorem bb_refused_changes_nothing : forall c fill ops o, 1 <= c -> Forall wf_op ops -> wf_op o ->
+Theorem bb_refused_changes_nothing : forall c fill ops o, 0 <= c -> Forall wf_op ops -> wf_op o ->
   let x := fst (run (start c fill) ops) in
   refused (snd (fst (step x o))) = true -> st (fst (fst (step x o))) = st x.
 Proof. exact refused_unchanged. Qed.
@@ -88,10 +98,63 @@ Print Assumptions bb_empty_all_writable.
 
 (* No operation of any history touches an index outside [0, c): every memcpy
    range and every region handed out by writer_fc / reader_fc lies inside. *)
-Theorem bb_indices_in_range : forall c fill ops, 1 <= c -> Forall wf_op ops ->
+Theorem bb_indices_in_range : forall c fill ops, 0 <= c -> Forall wf_op ops ->
   Forall (fun ob => acc_in_range c (o_acc ob) = true) (snd (run (start c fill) ops)).
 Proof. exact indices_in_range. Qed.
 Print Assumptions bb_indices_in_range.
+
+(* readable() = accepted - consumed for capacity 0 as well (there inv does not hold: w = c). *)
+Theorem bb_readable_exact_every_capacity : forall c fill ops, 0 <= c -> Forall wf_op ops ->
+  let s := st (fst (run (start c fill) ops)) in readable s = len (abs s).
+Proof. exact reachable_readable. Qed.
+Print Assumptions bb_readable_exact_every_capacity.
+
+(* The zero-copy regions while the other side works.  At every point of every
+   history the region handed out by the last successful writer_fc is still free
+   space - at w, at the origin (jump), or, when the reader has emptied the buffer
+   since, wherever it was - and the region exposed by the last successful
+   reader_fc is empty or still the first contiguous unread bytes. *)
+Theorem bb_regions_stay_valid : forall c fill ops, 1 <= c -> Forall wf_op ops ->
+  let x := fst (run (start c fill) ops) in
+  match wptr x with Some (off, n) => region_ok (st x) off n | None => True end /\
+  match rptr x with Some (off, n) => rptr_ok (st x) off n | None => True end.
+Proof. exact regions_outstanding. Qed.
+Print Assumptions bb_regions_stay_valid.
+
+(* Committing k <= n bytes through ANY outstanding region appends exactly the
+   bytes stored in it (from any state satisfying the invariant). *)
+Theorem bb_commit_through_region : forall s n off data s2 ok, inv s -> region_ok s off n -> len data <= n ->
+  writer_move_n (poke s off data) off (len data) = (s2, ok) ->
+  ok = true /\ inv s2 /\ cap s2 = cap s /\ abs s2 = abs s ++ data.
+Proof. exact wmn_region_spec. Qed.
+Print Assumptions bb_commit_through_region.
+
+(* read and reader_move keep an outstanding writer region valid, whatever they consume. *)
+Theorem bb_reader_keeps_writer_region : forall s n off m, inv s -> 0 <= n -> region_ok s off m ->
+  region_ok (fst (fst (read s n))) off m /\ region_ok (fst (reader_move s n)) off m.
+Proof. exact reader_keeps_writer_region. Qed.
+Print Assumptions bb_reader_keeps_writer_region.
+
+(* write keeps an outstanding reader region valid (same bytes: bb_step_refines on ORpeek). *)
+Theorem bb_writer_keeps_reader_region : forall s src off m, inv s -> rptr_ok s off m ->
+  rptr_ok (fst (fst (write s src))) off m.
+Proof. exact writer_keeps_reader_region. Qed.
+Print Assumptions bb_writer_keeps_reader_region.
+
+(* The unrepaired writer_move_n (w += k whenever ptr != buffer) is the repaired
+   one unless bytes are committed through a pointer that is neither the origin
+   nor buffer + w: by bb_regions_stay_valid that is exactly "the reader emptied
+   the buffer after a region at offset > 0 was handed out".  There it lost the
+   bytes: Example orig_commit_after_drain_loses_bytes (ProofsRegion.v). *)
+Theorem bb_orig_commit_wrong_only_after_drain : forall s off k,
+  (off = 0 \/ off = wp s \/ k <= 0) -> writer_move_n_orig s off k = writer_move_n s off k.
+Proof. exact orig_agrees_unless_drained. Qed.
+Print Assumptions bb_orig_commit_wrong_only_after_drain.
+
+(* init fails exactly when the allocation fails; malloc((size_t)c) for c < 0 cannot succeed. *)
+Theorem bb_init_fails_iff_alloc_fails : forall c fill ok, init_opt c fill ok = None <-> (c < 0 \/ ok = false).
+Proof. exact init_fails_iff. Qed.
+Print Assumptions bb_init_fails_iff_alloc_fails.
 
 (* Second tie to the source: the three static space helpers and
    contiguous_readable, translated from the C text of bytes_buffer.c on every
